@@ -9,8 +9,14 @@
 #define ENV_ASSERT(c, msg) do { if (!(c)) { fprintf(stderr, "ENV_ASSERT failed: %s\n", msg); abort(); } } while (0)
 #define ENV_ASSUME(c) do { if (!(c)) abort(); } while (0)
 #endif
+#ifdef MONITOR
+void rs_access(u8 *p, u64 n, int w);
+#define ENVF_ACCESS(p, n, w) rs_access(p, n, w)
+#else
+#define ENVF_ACCESS(p, n, w) ((void)0)
+#endif
 struct vfile {
-  u8 *data; u64 len, cap, pos; u8 eof, writable, closed;
+  u8 *data; u64 len, cap, pos; u8 eof, writable, closed, getc_state;
   u32 nwrites, nreads, first_read_seq;
   u64 woff[ENVF_LOGCAP], wlen[ENVF_LOGCAP]; u32 wseq[ENVF_LOGCAP];
 };
@@ -19,7 +25,7 @@ static struct vfile *mk(u64 cap)
 {
   struct vfile *f = malloc(sizeof(struct vfile)); ENV_ASSUME(f != 0);
   f->data = malloc(cap ? cap : 1); ENV_ASSUME(f->data != 0);
-  f->len = 0; f->cap = cap; f->pos = 0; f->eof = 0; f->writable = 0; f->closed = 0; f->nwrites = 0; f->nreads = 0; f->first_read_seq = 0;
+  f->len = 0; f->cap = cap; f->pos = 0; f->eof = 0; f->writable = 0; f->closed = 0; f->getc_state = 0; f->nwrites = 0; f->nreads = 0; f->first_read_seq = 0;
   return f;
 }
 u8 *envf_open_in(const u8 *data, u64 len) { struct vfile *f = mk(len); if (len) memcpy(f->data, data, len); f->len = len; return (u8 *)f; }
@@ -43,6 +49,7 @@ u64 X_fread(u8 *dst, u64 size, u64 nmemb, u8 *h)
   ENV_ASSERT(size == 1, "FILE model: element size 1");
   u64 want = nmemb, avail = f->pos < f->len ? f->len - f->pos : 0;
   u64 n = want < avail ? want : avail;
+  ENVF_ACCESS(dst, n, 1);
   if (n) memcpy(dst, f->data + f->pos, n);
   f->pos += n;
   if (n < want) f->eof = 1;
@@ -58,6 +65,7 @@ u64 X_fwrite(u8 *src, u64 size, u64 nmemb, u8 *h)
   ENV_ASSERT(size == 1, "FILE model: element size 1");
   ENV_ASSERT(f->writable, "fwrite on a file opened read-only (input file must not be modified)");
   ENV_ASSERT(nmemb <= f->cap && f->pos <= f->cap - nmemb, "fwrite beyond the modelled file capacity (more output than the bound allows)");
+  ENVF_ACCESS(src, nmemb, 0);
   if (nmemb) memcpy(f->data + f->pos, src, nmemb);
   ENV_ASSERT(f->nwrites < ENVF_LOGCAP, "write log capacity");
   f->woff[f->nwrites] = f->pos; f->wlen[f->nwrites] = nmemb; f->wseq[f->nwrites] = ++envf_seq; f->nwrites++;
@@ -79,22 +87,28 @@ u32 X_fgetc(u8 *h)
 {
   struct vfile *f = (struct vfile *)h;
   ENV_ASSERT(f != 0 && !f->closed, "fgetc on NULL/closed FILE");
-  if (f->pos < f->len) return f->data[f->pos++];
-  f->eof = 1; return 0xffffffffu;
+  ++envf_seq;
+  if (f->nreads++ == 0) f->first_read_seq = envf_seq;
+  if (f->pos < f->len) { f->getc_state = 1; return f->data[f->pos++]; }
+  f->eof = 1; f->getc_state = 2; return 0xffffffffu;
 }
 u32 X_getc(u8 *h) { return X_fgetc(h); }
 u32 X_ungetc(u32 c, u8 *h)
 {
   struct vfile *f = (struct vfile *)h;
   ENV_ASSERT(f != 0 && !f->closed, "ungetc on NULL/closed FILE");
-  if (c == 0xffffffffu) return c;
-  ENV_ASSERT(f->pos > 0 && f->data[f->pos - 1] == (u8)c, "FILE model: ungetc only of the byte just read");
-  f->pos--; f->eof = 0; return c;
+  /* decided by what the preceding fgetc returned (file state), not by the symbolic byte value, so that positions stay concrete;
+     ungetc(EOF) leaves the stream unchanged (C11 7.21.7.10) */
+  ENV_ASSERT(f->getc_state != 0, "FILE model: ungetc only directly after fgetc");
+  if (f->getc_state == 2) { ENV_ASSERT(c == 0xffffffffu, "FILE model: ungetc only of the value just read"); f->getc_state = 0; return c; }
+  ENV_ASSERT(f->pos > 0 && f->data[f->pos - 1] == (u8)c && c <= 255, "FILE model: ungetc only of the byte just read");
+  f->pos--; f->eof = 0; f->getc_state = 0; return c;
 }
 u64 X_ftell(u8 *h) { return ((struct vfile *)h)->pos; }
 u32 X_fclose(u8 *h) { struct vfile *f = (struct vfile *)h; ENV_ASSERT(f != 0, "fclose(NULL)"); ENV_ASSERT(!f->closed, "double fclose"); f->closed = 1; return 0; }
 u32 X_fflush(u8 *h) { (void)h; return 0; }
-u32 X_fputc(u32 c, u8 *h) { (void)h; return c; }
+u32 X_fputc(u32 c, u8 *h) { u8 b = (u8)c; return X_fwrite(&b, 1, 1, h) == 1 ? (u32)b : 0xffffffffu; }   /* clang turns fwrite(p,1,1,f) into fputc */
+u32 X_putc(u32 c, u8 *h) { return X_fputc(c, h); }
 u32 X_fprintf(u8 *h, u8 *fmt, ...) { (void)h; (void)fmt; return 0; }
 u32 X_printf(u8 *fmt, ...) { (void)fmt; return 0; }
 u32 X_puts(u8 *s) { (void)s; return 0; }
